@@ -14,7 +14,7 @@ def reach_sets(step_charges, L, q_start):
     return R
 
 
-def gen_charges(rng, L, d, cls, style=None, qd=None, q_start=None, qtot=None, maxD=4):
+def gen_charges(rng, L, d, cls, style=None, qd=None, q_start=None, qtot=None, maxD=4, dead=True):
     """returns qd, qD (list of int lists) for a sector-consistent object of the given class"""
     style = style if style is not None else rng.choice(['u1', 'u1', 'u1', 'zero', 'sorted', 'pair', 'disjoint', 'repeated'])
     if qd is not None:
@@ -41,6 +41,11 @@ def gen_charges(rng, L, d, cls, style=None, qd=None, q_start=None, qtot=None, ma
     C[L] = {qtot}
     for i in range(L - 1, -1, -1):
         C[i] = {q - s for q in C[i + 1] for s in steps}
+    # a spine: one valid charge path q_start -> qtot, so that the state is not zero by accident
+    spine = [q_start]
+    for i in range(1, L + 1):
+        opts = sorted(q for q in (R[i] & C[i]) if (q - spine[-1]) in set(steps))
+        spine.append(int(rng.choice(opts)) if opts else spine[-1])
     qD = [[q_start]]
     for i in range(1, L):
         ok = sorted(R[i] & C[i])
@@ -49,7 +54,8 @@ def gen_charges(rng, L, d, cls, style=None, qd=None, q_start=None, qtot=None, ma
             qb = [int(max(R[i]) + 7 + k) for k in range(D)]          # unreachable charges: the zero state
         else:
             qb = [int(rng.choice(ok)) for _ in range(D)]
-            if rng.random() < 0.2:
+            qb[int(rng.integers(D))] = spine[i]
+            if dead and rng.random() < 0.2:
                 qb[int(rng.integers(D))] = int(max(R[i]) + 5)        # one dead bond state
             if style == 'sorted':
                 qb = sorted(qb)
